@@ -37,6 +37,8 @@ func init() {
 			}
 			blobs = append(blobs, hx(sig))
 		}
+		otherObjects()
+		rememberImage(img)
 		return []string{"ok", strings.Join(blobs, ","), hx(p.Bytes())}
 	}
 	implOps["pe_verify"] = func(a []string) []string {
@@ -57,6 +59,8 @@ func init() {
 				}
 			}
 		}
+		otherObjects()
+		rememberImage(img)
 		ok, err := p.Verify(cert)
 		if err != nil {
 			return []string{peok, "err"}
